@@ -1,0 +1,68 @@
+//! Verification hooks (compiled only with `--cfg dnssector_verif`).
+//!
+//! A per-thread step counter, split by site, incremented once per iteration
+//! of every loop that walks wire data. An optional per-thread budget turns a
+//! runaway loop into a panic with a recognisable message. Nothing here changes
+//! behaviour unless a budget has been armed by a test harness.
+
+use std::cell::Cell;
+
+pub const SITE_NAME_LABEL: usize = 0; // check_compressed_name: one label examined
+pub const SITE_NAME_POINTER: usize = 1; // check_compressed_name: one pointer followed
+pub const SITE_UNAME_LABEL: usize = 2; // check_uncompressed_name: one label examined
+pub const SITE_RR: usize = 3; // parse_rr / parse_question: one record visited
+pub const SITE_OPT_OPTION: usize = 4; // parse_opt: one option visited
+pub const SITE_COPY_NAME: usize = 5; // copy_uncompressed_name
+pub const SITE_RAW_NAME_LEN: usize = 6; // raw_name_len / raw_name_len_after_decompression
+pub const SITE_NAME_TO_STR: usize = 7; // raw_name_to_str
+pub const SITE_SKIP_NAME: usize = 8; // RRIterator::skip_name
+pub const SITE_ITER_NEXT: usize = 9; // any section iterator's next()
+pub const SITE_RENAME: usize = 10; // Renamer::replace_raw loops
+pub const SITE_DICT: usize = 11; // SuffixDict::insert candidate loop
+pub const SITE_COMPRESS_NAME: usize = 12; // copy_compressed_name_with_base_offset label loop
+pub const N_SITES: usize = 13;
+
+pub const BUDGET_PANIC_MSG: &str = "dnssector_verif: step budget exceeded";
+
+thread_local! {
+    static COUNTERS: [Cell<u64>; N_SITES] = const { [const { Cell::new(0) }; N_SITES] };
+    static BUDGET: Cell<u64> = const { Cell::new(u64::MAX) };
+}
+
+/// Records one elementary step at `site`.
+#[inline]
+pub fn tick(site: usize) {
+    COUNTERS.with(|c| c[site].set(c[site].get().wrapping_add(1)));
+    BUDGET.with(|b| {
+        let left = b.get();
+        if left != u64::MAX {
+            if left == 0 {
+                b.set(u64::MAX);
+                panic!("{}", BUDGET_PANIC_MSG);
+            }
+            b.set(left - 1);
+        }
+    });
+}
+
+/// Returns the current per-site counters of the calling thread.
+pub fn snapshot() -> [u64; N_SITES] {
+    COUNTERS.with(|c| {
+        let mut out = [0u64; N_SITES];
+        for (o, c) in out.iter_mut().zip(c.iter()) {
+            *o = c.get();
+        }
+        out
+    })
+}
+
+/// Resets the per-site counters of the calling thread.
+pub fn reset() {
+    COUNTERS.with(|c| c.iter().for_each(|c| c.set(0)));
+}
+
+/// Arms (`Some(n)`: panic after `n` more steps) or disarms (`None`) the
+/// step budget of the calling thread.
+pub fn arm_budget(budget: Option<u64>) {
+    BUDGET.with(|b| b.set(budget.unwrap_or(u64::MAX)));
+}
